@@ -40,7 +40,7 @@ func (o *vfbChainOracle) resetNode(pos int) { // memdb loses its content on rest
 }
 
 func (o *vfbChainOracle) onPut(n *vfbNode, b *common.Beacon, src string, seq int64) {
-	run, be := o.nt.run, o.nt.cfg.Backend
+	run, be := o.nt.run, o.nt.backendOf(n)
 	run.Count("puts."+src, 1)
 	if o.c01 && b.Round > 0 {
 		if err := o.nt.verifyBeacon(b); err != nil {
@@ -90,6 +90,9 @@ func (o *vfbChainOracle) onPut(n *vfbNode, b *common.Beacon, src string, seq int
 		if g, ok := o.global[b.Round]; ok {
 			if !bytes.Equal(g.Signature, b.Signature) {
 				run.Violation("C02/honest-nodes-disagree/"+be, fmt.Sprintf("round %d: node %d stores bytes different from another honest node", b.Round, n.pos), o.info())
+			} else if !bytes.Equal(g.PreviousSig, b.PreviousSig) {
+				run.Violation("C02/honest-nodes-disagree-on-previous-signature/"+be,
+					fmt.Sprintf("round %d: node %d hands its store previous signature %x…, another honest node %x… (via %s)", b.Round, n.pos, vfHex(b.PreviousSig), vfHex(g.PreviousSig), src), o.info())
 			}
 		} else {
 			o.global[b.Round] = b
@@ -113,7 +116,7 @@ func (o *vfbChainOracle) onSyncSend(server *vfbNode, p *proto.BeaconPacket) {
 		return
 	}
 	if err := o.nt.verifyBeacon(b); err != nil {
-		o.nt.run.Violation("C01/unverifiable-beacon-served/peer-sync/"+o.nt.cfg.Backend,
+		o.nt.run.Violation("C01/unverifiable-beacon-served/peer-sync/"+o.nt.backendOf(server),
 			fmt.Sprintf("node %d served round %d on SyncChain that does not verify: %v", server.pos, b.Round, err), o.info())
 	} else {
 		o.nt.run.Count("served_beacons_verified", 1)
@@ -122,12 +125,14 @@ func (o *vfbChainOracle) onSyncSend(server *vfbNode, p *proto.BeaconPacket) {
 
 // finalScan: stop every node, re-open its store with fresh objects and check the persisted chain.
 func (o *vfbChainOracle) finalScan() {
-	nt, run, be := o.nt, o.nt.run, o.nt.cfg.Backend
+	nt, run := o.nt, o.nt.run
 	byRound := map[uint64][]byte{}
+	byRoundPrev := map[uint64][]byte{}
 	for _, n := range nt.nodes {
 		if !n.honest || n.tap == nil {
 			continue
 		}
+		be := nt.backendOf(n)
 		var bs []*common.Beacon
 		var err error
 		if be == "memdb" {
@@ -171,6 +176,13 @@ func (o *vfbChainOracle) finalScan() {
 					run.Violation("C02/honest-nodes-disagree-persisted/"+be, fmt.Sprintf("round %d", b.Round), o.info())
 				}
 				byRound[b.Round] = b.Signature
+				// stores that keep the whole beacon must agree on all of it (trimmed bolt reconstructs the previous signature)
+				if be != "bolt-trimmed" && b.Round > 0 {
+					if pp, ok := byRoundPrev[b.Round]; ok && !bytes.Equal(pp, b.PreviousSig) {
+						run.Violation("C02/honest-nodes-disagree-on-previous-signature-persisted/"+be, fmt.Sprintf("round %d", b.Round), o.info())
+					}
+					byRoundPrev[b.Round] = b.PreviousSig
+				}
 				o.mu.Lock()
 				if sh, ok := o.shadow[n.pos][b.Round]; ok && !bytes.Equal(sh.Signature, b.Signature) {
 					run.Violation("C02/persisted-differs-from-what-was-put/"+be, fmt.Sprintf("node %d round %d", n.pos, b.Round), o.info())
@@ -222,7 +234,7 @@ func vfbChainCases(t *testing.T, prop string, c01, c02 bool, quick, thorough int
 					orc = newChainOracle(nt, sc, c01, c02)
 					prevPut := nt.onPut
 					nt.onOpen = func(n *vfbNode) {
-						if nt.cfg.Backend == "memdb" {
+						if nt.backendOf(n) == "memdb" {
 							orc.resetNode(n.pos) // a ring starts empty on every start
 						}
 					}
